@@ -315,7 +315,14 @@ def install():
     exec(compile(wsrc, "<sequentialised SimulatorWorkerThread>", "exec"), ns, loc)
     simmod.SimulatorWorkerThread = loc["SimulatorWorkerThread"]
     clock = simstubs.VirtualClock()
-    clock.sleep = lambda x, c=clock: setattr(c, "now", c.now + 0.05)       # a poll = 50 virtual ms: "wait at most 1 s" = 20 polls
+    def _sleep(x, c=clock):
+        # a poll = 50 virtual ms ("wait at most 1 s" = 20 polls).  Inside a sequentialised command the sleep is an
+        # ordinary statement and the scheduler interleaves; inside ATOMIC caller code (initialize, cleanup, commands
+        # issued by listeners) a sleeping caller lets the run thread execute one statement
+        c.now += 0.05
+        if SCHED is not None and SCHED.caller_done:
+            SCHED.step_worker()
+    clock.sleep = _sleep
     simmod.time = clock
     simmod.sleep = clock.sleep
     if "narrowed" in simstubs.INSTALLED:
@@ -422,4 +429,6 @@ class GatedReplay:
     def local(self, frame, event, arg):
         if event == "line":
             self.gate(frame.f_lineno)
+        elif event == "return" and self.codes.get(frame.f_code) == "SimulatorWorkerThread.run":
+            self.thread_end("W")          # the run thread terminates: its last statement is complete
         return self.local
